@@ -1,0 +1,24 @@
+//go:build verif
+
+// Contracts for package crypto/ed25519 (comment-only; read by /verif/cmd/govc).
+package ed25519
+
+// Ghost accounting of batch verification (C16).  Per batch object: n = signatures added to it,
+// sub = how many of them are covered by a verification closure already handed out.  Globally:
+// "added" = signatures added to any batch, "covered" = signatures covered by handed-out closures.
+// (That a closure, when run, verifies the signatures it covers, and that batch verification agrees
+// with one-by-one verification, is ed25519consensus' business.)
+//@ func NewBatch
+//@   trusted
+//@   noframe
+//@   ensures !isnil(result) && gint("n", result) == 0 && gint("sub", result) == 0
+//@ func (*Batch).Add
+//@   trusted
+//@   noframe
+//@   modifies gint("n", b), gint("added", nil)
+//@   ensures gint("n", b) == old(gint("n", b)) + 1 && gint("added", nil) == old(gint("added", nil)) + 1
+//@ func (*Batch).VerifyAsync
+//@   trusted
+//@   noframe
+//@   modifies gint("sub", b), gint("covered", nil)
+//@   ensures gint("sub", b) == gint("n", b) && gint("covered", nil) == old(gint("covered", nil)) + gint("n", b) - old(gint("sub", b))
